@@ -37,6 +37,10 @@ func VerifC04_ResumeOffset() {
 	if err2 != nil {
 		verifAssert(errors.Is(err2, ociregistry.ErrRangeInvalid), "wrong-offset-is-RANGE_INVALID")
 		verifAssert(n2 == 0 && w2.Size() == int64(len(first)), "refused-write-leaves-upload-unchanged")
+		// the writer stays refused: more data sent on it is still data at a wrong offset
+		n3, err3 := w2.Write(third)
+		verifAssert(err3 != nil && errors.Is(err3, ociregistry.ErrRangeInvalid) && n3 == 0, "writer-resumed-at-a-wrong-offset-stays-refused")
+		verifAssert(w2.Size() == int64(len(first)), "refused-write-leaves-upload-unchanged")
 		verifCover("refused")
 	} else {
 		verifAssert(n2 == len(second) && w2.Size() == int64(len(first)+len(second)), "size-grows-by-write")
